@@ -31,6 +31,19 @@ ASSUMPTIONS = [
 
 
 MUTANTS = [
+    ("hand-written vertex formatter, sign on the degrees field",
+     "AegeanTools/regions.py",
+     "                        pos = SkyCoord(ra/15, dec, unit=(u.degree, u.degree))\n"
+     "                        positions.append(\n"
+     "                            pos.ra.to_string(sep=':', precision=2))\n"
+     "                        positions.append(\n"
+     "                            pos.dec.to_string(sep=':', precision=2))\n",
+     "                        for ang in (ra/15, dec):\n"
+     "                            d_m_s = np.round(abs(ang)*3600, 2)\n"
+     "                            dd, mm = int(d_m_s//3600), int(d_m_s//60) % 60\n"
+     "                            positions.append(\"{0:d}:{1:02d}:{2:05.2f}\".format(\n"
+     "                                int(np.sign(ang))*dd, mm, d_m_s % 60))\n",
+     "C12-R4"),
     ("uniq skips deepest level", "AegeanTools/regions.py",
      "        pd = []\n        for d in range(1, self.maxdepth+1):",
      "        pd = []\n        for d in range(1, self.maxdepth):", "C12-R1"),
@@ -262,6 +275,15 @@ def run(ctx):
                   "stored pixel (found %d in the pixel loop, %d in nested "
                   "loops)" % (len(prints), len(deeper)), node=ploop)
 
+    # a hand-written sexagesimal formatter with the sign on the integer field
+    from .c17 import signed_field_idiom
+    handmade = signed_field_idiom(fi.node)
+    for p_ in handmade:
+        ctx.check("C12-R4", fi, "vertex formatting " + norm(p_, 50), False,
+                  "the sign of the coordinate is carried by the product "
+                  "with the integer degrees field: for -1 < dec < 0 that "
+                  "field is 0, the minus sign is lost and the vertex is "
+                  "written mirrored north of the equator", node=p_)
     # vertices: (longitude, latitude) order and RA in hours at SkyCoord
     from .. import unitrules
     unitrules.apply(ctx, "C12-R4",
@@ -269,7 +291,8 @@ def run(ctx):
                         sh.startswith("regions.Region._") and
                         not sh.startswith("regions.Region.__")),
                     kinds={"call"}, report_rules=set(),
-                    what="contract sites of the DS9 writer", floor=1)
+                    what="contract sites of the DS9 writer",
+                    floor=None if handmade else 1)
     # ---------------------------------------------------------------- R5
     ctx.rule("C12-R5", ".mim round trip: Region defines no pickling hook; "
              "save dumps self and load returns what the same pickle module "
